@@ -499,6 +499,9 @@ func (p *Program) assembleQuery(res *FuncResult, o *Obl, forModel bool) string {
 	}
 	sb.WriteString("\n; ---- string literals\n")
 	sb.WriteString(p.sorts.strLitDecls())
+	for _, l := range p.strConsts {
+		sb.WriteString(l + "\n")
+	}
 	want := map[string]bool{}
 	for _, th := range res.Theories {
 		want[th] = true
